@@ -1,6 +1,7 @@
 package checks
 
 import (
+	"bufio"
 	"bytes"
 	"fmt"
 	"math/big"
@@ -86,6 +87,10 @@ func c06compressed(c *mon.Ctx, b []byte, cls string, rng *rand.Rand) {
 			var e banderwagon.Element
 			err := e.SetBytes(roBytesBudget(b))
 			return &e, err
+		}},
+		{"ReadPoint/bufio-16", func() (*banderwagon.Element, error) {
+			// a buffered reader whose buffer (16 bytes, bufio's minimum) is smaller than one encoding
+			return common.ReadPoint(bufio.NewReaderSize(bytes.NewReader(b), 16))
 		}},
 		{"ReadPoint/1byte", func() (*banderwagon.Element, error) {
 			return common.ReadPoint(iotest.OneByteReader(bytes.NewReader(b)))
@@ -252,6 +257,20 @@ func runC06body(c *mon.Ctx) {
 	// the very first decoding of the process (nothing has touched the library's decoders, tables or memos yet) is a
 	// special encoding that differs per shard: the identity (32 zero bytes), the generator, an invalid string followed by
 	// the identity, the identity in uncompressed form
+	if c.Mine(2) {
+		// x values that share their most significant limb(s) with the modulus (a canonicity test that looks at the top
+		// limb only goes wrong here): p - k and top-limb(p)*2^192 + k for small k; the oracle says which are valid
+		c.Case("x-sharing-top-limbs-with-p", func() {
+			rng := c.Rand("top-limbs")
+			top := new(big.Int).Lsh(new(big.Int).Rsh(ref.P, 192), 192)
+			top2 := new(big.Int).Lsh(new(big.Int).Rsh(ref.P, 128), 128)
+			for k := int64(0); k < 60; k++ {
+				for _, x := range []*big.Int{new(big.Int).Add(top, big.NewInt(k)), new(big.Int).Add(top2, big.NewInt(k)), new(big.Int).Sub(ref.P, big.NewInt(k+1))} {
+					c06compressed(c, be32(x), "x-shares-top-limb-with-p", rng)
+				}
+			}
+		})
+	}
 	c.Case("first-decode-of-the-process", func() {
 		rng := c.Rand("first-decode")
 		zeros := make([]byte, 32)
